@@ -234,11 +234,12 @@ func hostile(out string) {
 	if err != nil {
 		hx.Die("tmp: %v", err)
 	}
+	tmpDirs = append(tmpDirs, tmp)
 	defer os.RemoveAll(tmp)
 	if err := os.WriteFile(filepath.Join(tmp, "leak.zone"), []byte("leak 5 A 9.9.9.9\n"), 0o644); err != nil {
 		hx.Die("tmp: %v", err)
 	}
-	w := hx.NewWriter(out)
+	w := newWriter(out)
 	defer w.Close()
 	var sum hx.Summary
 	fams := map[string]int{}
@@ -252,7 +253,7 @@ func hostile(out string) {
 				rc.FS[n] = &fstest.MapFile{Data: []byte(d)}
 			}
 		}
-		o, timedOut, _ := zg.RunBudget([]byte(c.text), rc, 3*budget)
+		o, timedOut, _ := zg.RunBudget([]byte(c.text), rc, budget)
 		short := c.text
 		if len(short) > 300 {
 			short = short[:300] + fmt.Sprintf("...(%d octets)", len(c.text))
@@ -293,7 +294,7 @@ func hostile(out string) {
 				w.Emit(evSpell{"spell", hx.FromString(c.text), c.lines})
 			}
 			cfg := zg.Cfg{DefTTL: -1, Origin: zg.NameOpt{Set: true, N: labs("example")}, IncAllowed: c.allowed, File: hx.FromString("db"), Files: c.afiles}
-			w.Emit(evStart{"start", cfg})
+			w.Emit(evStart{"start", cfg, ""})
 			// attribution: the first line owns what was returned before "after"; an error belongs to the first line
 			// unless records of later lines were seen (position-based attribution is `record' mode's job)
 			var first, rest []zg.Rec5
